@@ -12,7 +12,8 @@ RULE = ('Sequences from 10 shape families (scale 1e-25..1e25, offsets up to 1e12
         'Variance/Skewness/Kurtosis on the same data; observed after every add (n<=64) or at geometric checkpoints; '
         'len, mean, central_moment(p) and standardized_moment(p) for every p in 0..=N are compared with the exact '
         'rational central moments within the section-2 envelopes (p=0,1 and standardized 0,1,2 exactly); sample sizes 2^16..2^56 by '
-        'self-merging followed by single adds (exact multiset oracle). Agreement '
+        'self-merging followed by single adds (exact multiset oracle); runs of 20000-200000 observations of magnitude 1e-27..1e-24 '
+        'for orders 6, 8, 10. Agreement '
         'with Mean/Variance/Skewness/Kurtosis follows because all are held to envelopes around the same exact value. '
         'distinct_nontrivial = distinct (type, program) cases with >=1 non-trivial checked state.')
 ASSUME = ['CPython int/Fraction arithmetic is exact; sqrt via isqrt to 2^-200', 'driver faithfully prints accessor bit patterns',
@@ -46,6 +47,24 @@ def run(tier, seed):
             descs = seqprop.make_descs(base, variant, binary, int(nseq * frac), common.NPROC * mult, seed)
             total.merge(common.run_shards(seqprop.shard, descs))
             if variant in ('release', 'dev'):
+                # long runs at the small-magnitude end of the domain: (delta/n)^p is subnormal or zero there although delta^p
+                # and the moments themselves are ordinary doubles
+                import random
+                lrng = random.Random(seed * 31 + len(variant))
+                nlong = (4 if tier == 'quick' else 16) if variant == 'release' else 2
+                ldescs = []
+                for s in range(nlong):
+                    n = lrng.choice([20000, 50000] if tier == 'quick' else [20000, 50000, 200000])
+                    sc = 10.0 ** lrng.uniform(-27.5, -24.0)
+                    sh = lrng.choice(['uniform', 'gauss', 'skewed'])
+                    xs = [sc * (lrng.uniform(-1, 1) if sh == 'uniform' else lrng.gauss(0, 0.4) if sh == 'gauss' else lrng.expovariate(2.0))
+                          for _ in range(n)]
+                    ldescs.append({'prop': PROP, 'types': [('M8', only_for(8)), ('M10', only_for(10)), ('M6', only_for(6))], 'P': 10,
+                                   'sequences': [xs], 'final_only': True, 'name': 'long%s%d' % (variant[0], s), 'variant': variant,
+                                   'binary': binary, 'seed': seed * 77 + s, 'nseq': 0})
+                lres = common.run_shards(seqprop.shard, ldescs)
+                lres.counters['long_small_magnitude_cases'] = lres.counters.get('cases', 0)
+                total.merge(lres)
                 # sample sizes beyond 2^32 / 2^53 (self-merging), then single adds: the add path with a huge n
                 import bigcount
                 bc = [(t, ka, kb) for t in ('Moments4', 'M4', 'M5', 'M6', 'M8', 'M10') for ka, kb in [(16, 16), (32, 32), (33, 0), (40, 20), (53, 0), (54, 54)]]
@@ -54,7 +73,7 @@ def run(tier, seed):
                 total.merge(common.run_shards(bigcount.shard, bdescs))
     except common.Inconclusive as e:
         total.inconclusive.append(str(e))
-    need = {'nontrivial_states': 1000, 'bigcount_states_above_2^32': 50, 'bigcount_states_above_2^53': 20}
+    need = {'long_small_magnitude_cases': 12, 'nontrivial_states': 1000, 'bigcount_states_above_2^32': 50, 'bigcount_states_above_2^53': 20}
     for t, _ in TYPES:
         need['cases_%s' % t] = 50
     return common.finish(PROP, tier, seed, total, RULE, t0, ASSUME, min_events=need,
